@@ -1,8 +1,8 @@
-CONSTANTS Mags = {1, 8} Pages <- PagesMix Rows = {1} Cids = {1, 2} Nats = {0} Flofs = {} Progs <- ProgsAB
-          HdrFaults <- HdrAll RowFaults <- RowFew PktFaults <- PktAll TripFaults = {1, 4, 7, 13} MaxFaults = 2 MaxPk = 5
+CONSTANTS Mags = {1, 8} Pages <- PagesMix Rows = {1} Cids = {1, 2} Nats = {0} Flofs = {} Progs <- ProgsAM
+          HdrFaults <- HdrAll RowFaults <- RowFewM PktFaults <- PktAll TripFaults = {1, 4, 13} FlofFaults <- NoFlofFaults MaxFaults = 2 MaxPk = 5
 SPECIFICATION Spec
 VIEW mcview
 CONSTRAINT Bounded
-INVARIANTS OneVersion RollingOne OnlyTransmitted EnhNotMisplaced RuleRest
-PROPERTIES KeepsRows BadRowContained AddressFaultNothing HeaderFaultOnlyAbandons
+INVARIANTS OneVersion RollingOne OnlyTransmitted EnhNotMisplaced RuleRest LinksContained
+PROPERTIES KeepsRows BadRowContained AddressFaultNothing HeaderFaultOnlyAbandons ParityErrorContained
 CHECK_DEADLOCK FALSE
